@@ -181,6 +181,25 @@ CHECKS = {
         "known findings (K2, K3, K11) are attributed through deviation "
         "models, everything else is a violation.",
         "DESIGN.md 3/C08"),
+    "C16": (
+        "exploration",
+        "Hypothesis stateful (rule-based) testing against a dictionary model "
+        "of files, mtimes and search path",
+        "A rule-based state machine (16 processes) generates histories of "
+        "write-version / touch / render / list-macros / use-macro / "
+        "render-without-reload / loader.load / load:-inside-a-template over "
+        "3 files x 3 search directories with mtimes that may move backwards; "
+        "after every step the file template must render like a freshly "
+        "compiled string template of the latest version, expose exactly that "
+        "version's macros and content type, not recompile while the mtime is "
+        "unchanged, and the loader must return the first match on the search "
+        "path (same instance for the same name, ValueError otherwise), with "
+        "load: preferring the including template's own directory. Failing "
+        "histories are minimised and replayable without Hypothesis.",
+        "Trusts the dictionary model in checks/c16.py; a modification always "
+        "changes the mtime seen at the last read (precondition of mtime-"
+        "based reloading).",
+        "DESIGN.md 3/C16"),
     "C17": (
         "exploration",
         "Hypothesis configuration-product generation + differential (bytes "
